@@ -8,7 +8,7 @@
 From Coq Require Import Reals Lra Psatz.
 From Coquelicot Require Import Coquelicot.
 From SpdVerif Require Import Base.Rx Base.CxPM Model.PMParams Model.PMLimit Spec.Overlap Proofs.C08_overlap Gen.PMIntegrand Gen.PMSingles
-  Proofs.C05_limit Proofs.C05_sinc Proofs.C05_waistlimit_walkoff Proofs.PM_singles_limit.
+  Proofs.C05_closure Proofs.C05_limit Proofs.C05_sinc Proofs.C05_waistlimit_walkoff Proofs.PM_singles_limit Proofs.C08_limit_generated.
 Local Open Scope R_scope.
 
 Lemma erf_bridge x : Overlap.erf x = PMLimit.erf x.
@@ -133,3 +133,55 @@ Section RoundBeams.
     rewrite Eh. fold si. unfold D0, Sigma, Sig. unfold Sigma, Sig in HS. field. repeat split; first [lra | nra].
   Qed.
 End RoundBeams.
+
+
+(* ---- capstone, on the generated integrands: a collinear setup with round beams Wp, Ws, Wi, no apodization, at a frequency pair of perfect
+   phase matching (ff = L Delta k_z / 2 = 0).  Scale the three waists and the walk-off length by s.  Then
+     s^4 pm_integrand  -> Lc(z)   and   s^6 pms_integrand -> Ls(z1, z2)   pointwise as s -> infinity,  and
+     Wi^2 |1/2 Int Lc|^2 / (1/4 IntInt |Ls|) = eta F^2 / R = limit_ratio Wp Ws Wi L tan(rho). *)
+Lemma singles_C3_is_2ff p : pms_C3 p = 2 * pm_ff p.
+Proof. unfold pms_C3, pms_C7, pm_ff. change (pms_k_p p) with (pm_k_p p). change (pms_dksi p) with (pm_dksi p). lra. Qed.
+
+Theorem limit_ratio_generated p Wp Ws Wi :
+  pm_collinear p ->
+  p_wpx p = Wp -> p_wpy p = Wp -> p_wsx p = Ws -> p_wsy p = Ws -> p_wix p = Wi -> p_wiy p = Wi ->
+  0 < Wp -> 0 < Ws -> 0 < Wi ->
+  (forall z, p_apod p z = 1) -> pm_ff p = 0 -> pms_k_p p <> 0 -> pms_k_s p <> 0 ->
+  let psi := pm_ks_f p * p_z0s p + pm_ki_f p * p_z0i p + pm_ee p in
+  let Lc := coinc_limit_integrand Wp Ws Wi (p_L p) (tan (p_rho p)) psi in
+  let Ls := singles_limit_integrand Wp Ws (p_L p) (tan (p_rho p)) in
+  (forall z, filterlim (fun s => Cmult (RtoC ((s * s) * (s * s))) (pm_integrand (pm_scale_wr s p) z)) (Rbar_locally p_infty) (locally (Lc z))) /\
+  (forall z1 z2, filterlim (fun s => Cmult (RtoC ((s * s) * (s * s) * (s * s))) (pms_integrand (pm_scale_wr s p) z1 z2))
+                           (Rbar_locally p_infty) (locally (Ls z1 z2))) /\
+  Wi ^ 2 * Cmod (Cmult (RtoC (1 / 2)) (Cint Lc (-1) 1)) ^ 2 /
+    (/ 4 * RInt (fun z1 => RInt (fun z2 => Cmod (Ls z1 z2)) (-1) 1) (-1) 1) = limit_ratio Wp Ws Wi (p_L p) (tan (p_rho p)).
+Proof.
+  intros Hc Epx Epy Esx Esy Eix Eiy HWp HWs HWi Hapod Hff Hkp Hks psi Lc Ls.
+  assert (EWx : pm_Wx_SQ p = Wp ^ 2) by (unfold pm_Wx_SQ; rewrite Epx; ring).
+  assert (EWy : pm_Wy_SQ p = Wp ^ 2) by (unfold pm_Wy_SQ; rewrite Epy; ring).
+  assert (EWs : pm_Ws_SQ p = Ws ^ 2) by (unfold pm_Ws_SQ; rewrite Esx, Esy; ring).
+  assert (EWi : pm_Wi_SQ p = Wi ^ 2) by (unfold pm_Wi_SQ; rewrite Eix, Eiy; ring).
+  assert (Hs2 : 0 < Ws ^ 2) by nra. assert (Hi2 : 0 < Wi ^ 2) by nra. assert (Hp2 : 0 < Wp ^ 2) by nra.
+  split; [|split].
+  - intros z.
+    assert (EL : Lc z = plane_wave_valueW (p_apod p) (pm_Wx_SQ p) (pm_Wy_SQ p) (pm_Ws_SQ p) (pm_Wi_SQ p) (0.5 * p_L p * tan (p_rho p))
+                                       (pm_ks_f p * p_z0s p + pm_ki_f p * p_z0i p) (pm_ee p) (pm_ff p) z).
+    { unfold Lc, coinc_limit_integrand, zd_closure, plane_wave_valueW.
+      rewrite (closure_zero_diffraction (fun _ => 1) (Wp ^ 2) (Wp ^ 2) (Ws ^ 2) (Wi ^ 2) (p_L p * tan (p_rho p) / 2) psi 0 0 z Hs2 Hi2
+                 (Rlt_le _ _ Hp2) (Rlt_le _ _ Hp2)).
+      rewrite EWx, EWy, EWs, EWi, Hapod, Hff. unfold psi.
+      assert (En : p_L p * tan (p_rho p) / 2 = 0.5 * p_L p * tan (p_rho p)) by lra. rewrite En.
+      replace (pm_ks_f p * p_z0s p + pm_ki_f p * p_z0i p + pm_ee p + 0 + 0 * z) with (pm_ks_f p * p_z0s p + pm_ki_f p * p_z0i p + pm_ee p + 0 * z) by ring.
+      reflexivity. }
+    rewrite EL. apply coincidence_integrand_limit; [assumption | rewrite EWs | rewrite EWi]; assumption.
+  - intros z1 z2.
+    assert (EL : Ls z1 z2 = singles_limit_value (p_apod p) (pms_Wx_SQ p) (pms_Wy_SQ p) (pms_Ws_SQ p) (p_L p * tan (p_rho p)) (pms_C3 p) z1 z2).
+    { unfold Ls, singles_limit_integrand. change (pms_Wx_SQ p) with (pm_Wx_SQ p). change (pms_Wy_SQ p) with (pm_Wy_SQ p).
+      change (pms_Ws_SQ p) with (pm_Ws_SQ p). rewrite EWx, EWy, EWs, singles_C3_is_2ff, Hff.
+      unfold singles_limit_value. rewrite !Hapod. do 3 f_equal. ring. }
+    rewrite EL. apply singles_integrand_limit; try assumption.
+    + change (pms_Ws_SQ p) with (pm_Ws_SQ p). rewrite EWs. assumption.
+    + change (pms_Wx_SQ p) with (pm_Wx_SQ p). rewrite EWx. assumption.
+    + change (pms_Wy_SQ p) with (pm_Wy_SQ p). rewrite EWy. assumption.
+  - apply (limit_ratio_from_integrands Wp Ws Wi (p_L p) (tan (p_rho p)) psi HWp HWs HWi).
+Qed.
